@@ -123,6 +123,25 @@ fn main() {
                 "fd" => engines::fd::replay(&v),
                 "membership" => engines::membership::replay(&v),
                 "server" => engines::server::replay(&v),
+                "isolation" => {
+                    let p = engines::isolation::cut_foreign_syn();
+                    match p.violations.first() {
+                        Some(x) => Err(x.what.clone()),
+                        None => Ok(()),
+                    }
+                }
+                "wire" => {
+                    let parts = engines::wire::run("C08", Tier::Quick, std::time::Instant::now());
+                    match parts.iter().flat_map(|p| p.violations.iter()).next() {
+                        Some(x) => Err(x.what.clone()),
+                        None => Ok(()),
+                    }
+                }
+                "top" => {
+                    println!("this file records a panic of the code under test that escaped the engines: {}", v["observed"]);
+                    println!("re-run the check of property {} to reproduce it", v["property"]);
+                    Ok(())
+                }
                 e => Err(format!("unknown engine {e}")),
             };
             match r {
@@ -146,7 +165,7 @@ fn run_check(prop: &str, tier: Tier) -> i32 {
     match prop {
         "C06" => {
             check.parts.extend(engines::kv::run(prop, tier, started));
-            check.assumptions.push("alphabet: 5 keys (\"\", a, ab, b, é) x 2 values; grace period 1000 ms; clock advances of G-1 ms and 1 ms".into());
+            check.assumptions.push("alphabet: 5 keys (\"\", a, ab, b, é) x 2 values; grace period 1500 ms (deliberately not a whole number of seconds); clock advances of G-1 ms and 1 ms".into());
             check.outside_bounds.push("larger key/value alphabets; sequences longer than the exhaustive bound that are not covered by the abstraction of part 2".into());
         }
         "C01" | "C02" | "C03" | "C04" | "C05" | "C20" => {
